@@ -7,6 +7,7 @@ import (
 	"encoding/hex"
 	"fmt"
 	"runtime"
+	"sort"
 	"strconv"
 	"strings"
 	"time"
@@ -97,6 +98,16 @@ func c08Handle(req string) string {
 		case "frameB":
 			mx, _ := strconv.ParseUint(f[2], 16, 32)
 			t, pl, ek, consumed, pn := sftp.VerifReadPacketB(b, uint32(mx))
+			pan = pn
+			if ek != "ok" {
+				out = fmt.Sprintf("res=err:%s consumed=%x", ek, consumed)
+			} else {
+				out = fmt.Sprintf("res=%x/%s consumed=%x", t, hexs(pl), consumed)
+			}
+		case "frameBbuf":
+			mx, _ := strconv.ParseUint(f[2], 16, 32)
+			cp, _ := strconv.ParseUint(f[3], 16, 32)
+			t, pl, ek, consumed, pn := sftp.VerifReadPacketBBuf(b, uint32(mx), int(cp))
 			pan = pn
 			if ek != "ok" {
 				out = fmt.Sprintf("res=err:%s consumed=%x", ek, consumed)
@@ -282,6 +293,35 @@ func runC08(c *Ctx) {
 			ask("frameA", []string{kvh("b", m)}, "frameA "+hexs(m), len(m), false)
 			ask("frameAalloc", []string{kvh("b", m)}, "frameAalloc "+hexs(m), len(m), false)
 			ask("frameB", []string{kvh("b", m), kvx("max", 34000)}, "frameB "+hexs(m)+" 84d0", len(m), false)
+		}
+	}
+	// the limit is the caller's, whatever scratch buffer the caller brings: small limits x buffer capacities (0 = nil, which
+	// makes the reader allocate its own 64 bytes) x declared lengths around the limit and around the capacity, body whole or cut
+	for _, mx := range []int{5, 9, 20, 40, 100} {
+		for _, cp := range []int{0, 4, 16, 64, 200, 1024} {
+			lens := map[int]bool{}
+			for _, base := range []int{mx, cp, 64} {
+				for d := -1; d <= 1; d++ {
+					if l := base + d; l >= 5 {
+						lens[l] = true
+					}
+				}
+			}
+			var ls []int
+			for l := range lens {
+				ls = append(ls, l)
+			}
+			sort.Ints(ls)
+			for _, l := range ls {
+				for _, cut := range []int{0, 1} {
+					m := binary.BigEndian.AppendUint32(nil, uint32(l))
+					for i := 0; i < l-cut; i++ {
+						m = append(m, byte(3+i))
+					}
+					ask("frameB", []string{kvh("b", m), kvx("max", uint64(mx)), kvx("cap", uint64(cp))}, fmt.Sprintf("frameBbuf %s %x %x", hexs(m), mx, cp), len(m), cut == 0 && l <= mx)
+					c.Stat("frameB_with_scratch_buffer")
+				}
+			}
 		}
 	}
 	// full-size frames (exactly the limit)
